@@ -9,7 +9,7 @@ wt, k, sid = sys.argv[1], sys.argv[2], sys.argv[3]
 d = os.path.join(wt, '_seed', k)
 meta = json.load(open(os.path.join(d, 'meta.json')))
 def sh(cmd, cwd=wt, timeout=1200):
-    r = subprocess.run(cmd, shell=True, cwd=cwd, capture_output=True, text=True, timeout=timeout)
+    r = subprocess.run(cmd, shell=True, cwd=cwd, capture_output=True, text=True, errors="replace", timeout=timeout)
     return r.returncode, (r.stdout + r.stderr)[-1500:]
 rec = {}
 sh('git checkout -- . ')
